@@ -200,36 +200,34 @@ impl KademliaRoutingTable {
     }
 
     fn find_closest_nodes(&self, key: &DhtKey, count: usize) -> Vec<NodeInfo> {
-        // Optimization: Start from the bucket closest to the key and work outwards
-        // This avoids collecting all nodes from all 256 buckets when we only need a few
+        // Bucket `i` holds the peers whose first bit differing from the local id is bit `i`.
+        // Relative to `key` (whose first differing bit is `target_bucket`):
+        //  * peers in `target_bucket` share one more prefix bit with the key than any other peer;
+        //  * peers in buckets above it all differ from the key at bit `target_bucket`, and
+        //    their mutual order is not determined by the bucket index;
+        //  * peers in a bucket below it are strictly farther than all of the above, and the
+        //    farther the lower the bucket index.
+        // So every bucket from the target upwards is collected once, and the buckets below
+        // are walked downwards, stopping as soon as `count` candidates are known.
         let target_bucket = self.get_bucket_index_for_key(key);
 
-        let mut candidates: Vec<(NodeInfo, [u8; 32])> = Vec::with_capacity(count * 2);
+        let mut candidates: Vec<(NodeInfo, [u8; 32])> =
+            Vec::with_capacity(count.saturating_mul(CANDIDATE_EXPANSION_FACTOR));
 
-        // Collect from target bucket first, then expand outwards
-        for offset in 0..256 {
-            // Check bucket above target (or at target when offset == 0)
-            let bucket_above = target_bucket.saturating_add(offset).min(255);
-            for node in self.buckets[bucket_above].get_nodes() {
+        for bucket in self.buckets.iter().skip(target_bucket) {
+            for node in bucket.get_nodes() {
                 let distance = node.id.0.distance(key);
                 candidates.push((node.clone(), distance));
             }
+        }
 
-            // Check bucket below target (skip when offset == 0 to avoid duplicate)
-            if offset > 0 {
-                let bucket_below = target_bucket.saturating_sub(offset);
-                // Only check if it's a different bucket (saturating_sub may equal target_bucket)
-                if bucket_below != bucket_above {
-                    for node in self.buckets[bucket_below].get_nodes() {
-                        let distance = node.id.0.distance(key);
-                        candidates.push((node.clone(), distance));
-                    }
-                }
-            }
-
-            // Early exit: if we have enough candidates, we can stop expanding
-            if candidates.len() >= count * CANDIDATE_EXPANSION_FACTOR {
+        for bucket in self.buckets.iter().take(target_bucket).rev() {
+            if candidates.len() >= count {
                 break;
+            }
+            for node in bucket.get_nodes() {
+                let distance = node.id.0.distance(key);
+                candidates.push((node.clone(), distance));
             }
         }
 
